@@ -192,17 +192,14 @@ func init() {
 			"holdings = balances in every currency + locked/unlocking/withdrawable stake + delegated + undelegating + delegation reward claims. Oracle: holdings of an account fall across a block only if a signature of that account verifies (checked by the harness) on a transaction of the block, " +
 			"or it is the stake account (per the previous block's validator records) of a validator whose key signed, or of a validator whose byzantine-fault freeze record was created in this block. Non-trivial: >=5 blocks and >=3 authorised debits observed; distinct = distinct fingerprints.",
 		MakeSetup: func(rng *rand.Rand, tier string, seed uint64) *Setup {
-			k := SwarmKnobs(rng)
-			su := &Setup{Knobs: k, Sess: gen.NewSession()}
-			su.Replicas = append(su.Replicas, core.ReplicaConf{Identity: "x0", Quiet: true, Recent: 10, Every: 100, Cycles: 10, WitnessInitEarly: true})
-			su.Gens = allGens(rng)
-			su.Gens = append(su.Gens, gen.ByName("hostile-values", "impersonator")...)
-			su.Blocks = 12 + rng.Intn(30)
+			nb := 12 + rng.Intn(30)
 			if tier == "thorough" {
-				su.Blocks = 15 + rng.Intn(50)
+				nb = 15 + rng.Intn(50)
 			}
-			su.MaxTx = 12
-			su.PlanHook = AbsentHook(0.05)
+			su := drawWorkload(rng, tier, seed, 4, nb)
+			su.Replicas = append(su.Replicas, core.ReplicaConf{Identity: "x0", Quiet: true, Recent: 10, Every: 100, Cycles: 10, WitnessInitEarly: true})
+			su.Gens = append(su.Gens, gen.ByName("hostile-values", "impersonator")...)
+			su.PlanHook = chainPlan(su.PlanHook, AbsentHook(0.05))
 			return su
 		},
 		MakeOracle: func(e *core.Engine, tr *core.Trace) Oracle { return &c03Oracle{} },
